@@ -48,6 +48,10 @@ type Params struct {
 	DupFail      int     `json:"dup_fail"`      // the n-th dup fails with EMFILE (0: never)
 	EpollAddFail int     `json:"epoll_add_fail"` // the n-th EPOLL_CTL_ADD of a socket fails with ENOMEM (0: never)
 	DgramQueue   int     `json:"dgram_queue"`   // datagrams a socket queues before dropping
+	// Fault-point sweeps: the ShortAt-th stream write that could be cut short (1-based; 0: none)
+	// takes exactly ShortTake bytes (clamped to [1, n-1]) - one scripted fault instead of a rate.
+	ShortAt   int `json:"short_at,omitempty"`
+	ShortTake int `json:"short_take,omitempty"`
 }
 
 // DefaultParams is a benign kernel.
@@ -194,6 +198,7 @@ type Kernel struct {
 	Stats     map[string]int
 	Fair      bool // no faults, nothing withheld
 	dupCount  int
+	shortSeq  int
 	addCount  int
 	// ConnectPolicy decides the outcome of a connect to an address without a listener:
 	// nil -> ECONNREFUSED. For TCP the outcome is delivered asynchronously.
@@ -237,6 +242,16 @@ func New(p Params) *Kernel {
 }
 
 func (k *Kernel) stat(s string) { k.Stats[s]++ }
+
+// scriptedShort counts the stream writes that could be cut short and reports whether this one
+// is the scripted one (Params.ShortAt). It draws nothing from the PRNG.
+func (k *Kernel) scriptedShort() bool {
+	if k.P.ShortAt <= 0 || k.Fair {
+		return false
+	}
+	k.shortSeq++
+	return k.shortSeq == k.P.ShortAt
+}
 
 func (k *Kernel) chance(p float64) bool {
 	if k.Fair || p <= 0 {
@@ -730,6 +745,21 @@ func (s *Sock) send(b []byte, allowShort bool) (int, std.Errno) {
 		n = sp
 		s.nospace = true
 		k.stat("write_short_full")
+	} else if allowShort && n > 1 && k.scriptedShort() {
+		n = k.P.ShortTake
+		if n <= 0 {
+			n = len(b) / 2 // "half"
+		}
+		if n < 1 {
+			n = 1
+		}
+		if n > len(b)-1 {
+			n = len(b) - 1
+		}
+		s.nospace = true
+		s.owed = true
+		k.stat("write_short_scripted")
+		k.kick()
 	} else if allowShort && n > 1 && k.chance(k.P.ShortWrite) {
 		n = 1 + simrt.Intn(n-1)
 		s.nospace = true
